@@ -5,6 +5,8 @@ import (
 	"errors"
 	"fmt"
 	"os"
+	"runtime"
+	"strconv"
 	"strings"
 	"sync/atomic"
 	"testing"
@@ -406,8 +408,11 @@ func TestC18Interleave(t *testing.T) {
 func TestC18OverLimit(t *testing.T) {
 	rec := ev.New(t, "C18")
 	// This scenario moves 257 MB through one connection and the node drops a peer it has not heard
-	// from for 3 s; on an oversubscribed machine a single 1 MB packet near the limit can take longer
-	// (measured). After two such inconclusive attempts the test stops trying and says so in the
+	// from for 3 s. The node's reassembly buffer grows by reallocation (1.25x steps, ~1.3 GB of fresh
+	// memory in total); in this sandbox a first-touch page fault costs ~200 us when the host is busy
+	// (measured: 82 s to touch 1.5 GB), so one growth step beyond ~100 MB takes longer than 3 s and the
+	// node drops the peer on its heartbeat timer before the limit is reached. On an idle machine the
+	// whole case takes ~7 s. After two such inconclusive attempts the test stops trying and says so in the
 	// evidence notes ("overlimit_not_evaluated") instead of turning the whole property inconclusive;
 	// completed cases are counted as usual (0 completed cases = not evaluated in this run).
 	var softInconclusive atomic.Int64
@@ -428,10 +433,21 @@ func TestC18OverLimit(t *testing.T) {
 			inconclusive(rt, rec, "the node tore a connection down on a wall-clock limit: "+n.Log.PeerErrors())
 		}
 	}
+	// optional: C18_PREFAULT_MB=<n> touches n MB of heap first, so that the growth steps reuse mapped
+	// pages (slow but reliable on machines with expensive first-touch faults)
+	if mb, _ := strconv.Atoi(os.Getenv("C18_PREFAULT_MB")); mb > 0 {
+		pre := make([]byte, mb<<20)
+		for i := 0; i < len(pre); i += 4096 {
+			pre[i] = 1
+		}
+		pre = nil
+		runtime.GC()
+	}
 	rapid.Check(t, func(rt *rapid.T) {
 		if softInconclusive.Load() >= 2 {
 			return
 		}
+		defer runtime.GC()
 		c := rec.Case()
 		seed := rapid.Uint64().Draw(rt, "dataseed")
 		topic := rapid.SampledFrom(p2psim.AppTopics).Draw(rt, "topic")
